@@ -1,1 +1,2 @@
+pub mod dsl;
 pub mod python;
